@@ -222,13 +222,14 @@ Section Redo2.
     snd (base_layers size_of (layer_from_layer size_of) (init s) (BFiles d parts fail det)) =
     match bget (dhex d) s with
     | None => None
-    | Some c0 => if fail then None else Some (map (part_layer d c0) parts ++ map (fun p => nl (fst p) (snd p)) det)
+    | Some c0 => if fail || match parts with [] => true | _ => false end then None
+                 else Some (map (part_layer d c0) parts ++ map (fun p => nl (fst p) (snd p)) det)
     end.
   Proof.
     cbn [base_layers init rs]. destruct (bget (dhex d) s) as [c0|] eqn:Eb; [|reflexivity].
     destruct (gguf_parts_snd d c0 parts (init s) Eb) as [G1 _].
     destruct (gguf_parts size_of (layer_from_layer size_of) (init s) d parts) as [r1 ot]. cbn [snd] in G1. subst ot.
-    destruct fail; [reflexivity|].
+    destruct (fail || match parts with [] => true | _ => false end); [reflexivity|].
     assert (H := add_detected_snd det r1 (map (part_layer d c0) parts)). destruct (add_detected size_of r1 _ det) as [r2 ls]. cbn in *. subst ls. reflexivity.
   Qed.
 
